@@ -117,7 +117,7 @@ class PathCtx:
     def light_decides(self, cond):
         """True / False if the small facts alone settle cond, else None."""
         try:
-            if not _small(cond, 6):
+            if not _small(cond, 9):
                 return None
             self.light.push()
             self.light.add(z3.Not(cond))
@@ -149,9 +149,15 @@ class PathCtx:
 
     def feasible(self, cond):
         """Is pc /\\ cond satisfiable?  unknown counts as feasible (conservative)."""
+        q = self.light_decides(cond) if z3.is_expr(cond) else None
+        if q is not None:
+            return q
         return self._check(cond) != z3.unsat
 
     def entails(self, cond):
+        q = self.light_decides(cond) if z3.is_expr(cond) else None
+        if q is not None:
+            return q
         return self._check(z3.Not(cond)) == z3.unsat
 
     # -- branching ---------------------------------------------------------------------------
